@@ -1,6 +1,7 @@
 import RedactVerif.Props.C01
 import RedactVerif.Props.L2
 import RedactVerif.Proofs.FuelMono
+import RedactVerif.Proofs.Clean
 import RedactVerif.Props.C09
 import RedactVerif.Props.FactsSkelPrinter
 import RedactVerif.Props.FactsSkelWriters
@@ -221,5 +222,11 @@ theorem sprintf_fuel_irrelevant (env : Env) (f : List Byte) (args : List Val) (n
   obtain ⟨k, hk⟩ : ∃ k, defaultFuel = n + k := ⟨defaultFuel - n, by omega⟩
   unfold sprintf; rw [hk]
   exact doPrintf_fuel env n newPP f args r h hr k
+
+/-- The nested-printer route needs no side condition on clean inputs. -/
+theorem nested_print_route_clean (env : Env) (he : EnvOk env) (hc : EnvCl env) (n : Nat) (args : Vals) (ha : ValsOk args)
+    (hk : ValsCl args) (q : PP) (h : doPrint env (n + 1) newPP args.toList = .ok q) :
+    ∃ q', runScript env (n + 2) newPP (.print args .done) = .ok q' ∧ q'.buf.redactableBytes = q.buf.redactableBytes :=
+  nested_print_route env he n args ha q h (doPrint_output_clean env hc (n + 1) _ (listCl_of_valsCl _ hk) q h).2
 
 end Redact
